@@ -4,7 +4,7 @@
     drxtract/cas/cas.py            parse_cas_file_data
     drxtract/lctx/lctx.py          parse_lctx_file_data
     drxtract/lingosrc/parse/lnam.py parse_lnam_file_data
-    drxtract/vwlb/vwlb.py          parse_vwlb_data        (after the fixes F03/F50: configured codec, unsigned offsets)
+    drxtract/vwlb/vwlb.py          parse_vwlb_data        (after the fixes F03/F50/F51: configured codec, unsigned offsets, offsets must not decrease)
     drxtract/vwcf/vwcf.py          parse_vwcf_file_data   (+ common.get_palette_name)
   Function by function, loop by loop.  Text decoding is a parameter `dec : Bytes → R (List Char)`
   (the driver passes `decodeText codec`, i.e. `bytes.decode(get_encoding())`).
@@ -135,6 +135,7 @@ def vwlbLoop (dec : Dec) (d : Bytes) (mnidx : Nat) : Nat → Nat → R (List Mar
     let frame ← getS .be 2 d indx
     let nameStart ← getU .be 2 d (indx + 2)
     let nameEnd ← getU .be 2 d (indx + 6)
+    if mnidx + nameEnd < mnidx + nameStart then .error .value else   -- fix F51: decreasing label offsets are rejected
     let name ← dec (slice d (mnidx + nameStart) (mnidx + nameEnd))
     let rest ← vwlbLoop dec d mnidx n (indx + 4)
     .ok (⟨name, frame⟩ :: rest)
